@@ -46,7 +46,7 @@ const CONC: [Ty; 3] = [Ty::Rec, Ty::Choice, Ty::MyMsg];
 
 pub fn gen_ty(t: &mut Tape, nparams: usize, assoc: bool, depth: usize) -> Ty {
     // leaf or wrapper
-    let wrap = if depth >= 2 { 0 } else { t.weighted(&[70, 8, 8, 5, 4, 5]) };
+    let wrap = if depth >= 2 { 0 } else { t.weighted(&[68, 8, 8, 5, 4, 3, 4]) };
     match wrap {
         0 => {
             let use_param = nparams > 0 && t.chance(30);
@@ -88,6 +88,7 @@ pub fn gen_ty(t: &mut Tape, nparams: usize, assoc: bool, depth: usize) -> Ty {
             Box::new(gen_ty(t, nparams, assoc, depth + 1)),
         ),
         4 => Ty::Map(Box::new(gen_ty(t, nparams, assoc, depth + 1))),
+        5 => Ty::Arr2(Box::new(gen_ty(t, nparams, assoc, depth + 1))),
         _ => Ty::Boxed(Box::new(gen_ty(t, nparams, assoc, depth + 1))),
     }
 }
